@@ -23,6 +23,11 @@ def shards(mode, bin_, n, **kw):
 
 
 PROPS = {
+    "C14": {
+        "runs": [{"mode": "native-dev", "bin": "c14"}],
+        "expect_monitors": ["white_and_neutrals", "rgb_xyz_matrices", "chromatic_adaptation"],
+        "assumptions": ASSUME_COMMON + ["white point tristimulus values and primaries typed in harness/src/refmodel/space.rs from the published tables; Bradford and Von Kries cone matrices from Lindbloom"],
+    },
     "C08": {
         "runs": [{"mode": "native-dev", "bin": "c08"}] + shards("miri", "c08", 10) + [{"mode": "asan-dev", "bin": "c08"}],
         "expect_monitors": ["blend_modes", "compose", "premultiply"],
